@@ -95,6 +95,10 @@ func main() {
 		if len(c.LoadErr) > 0 {
 			fmt.Println("LOAD ERRORS:", c.LoadErr)
 		}
+	case "dump-selects":
+		c := NewCtx(repoDir())
+		c.Load()
+		c.dumpSelects()
 	case "manifest":
 		os.Exit(cmdManifest())
 	case "selftest":
